@@ -1,1 +1,68 @@
-From Texel Require Import Csp.BitSet Csp.Csp Csp.CspSpec.
+(** C20 — the rank-constraint solver decides satisfiability exactly.
+    Only statements; every proof is [exact <lemma>] into Csp/CspTheorems.v.
+    Model: Csp/BitSet.v, Csp/Csp.v (tied to lib/texelutillib/pg/cspsolver.cpp and bitSet.hpp by
+    the correspondence check); specification: Csp/CspSpec.v. *)
+From Coq Require Import ZArith NArith List.
+From Texel Require Import Csp.BitSet Csp.Csp Csp.CspSpec Csp.CspProofs Csp.CspTheorems.
+Import ListNotations.
+Local Open Scope Z_scope.
+
+(** any assignment the solver returns satisfies every domain and every constraint *)
+Theorem C20_sound : forall s vals n, wf s -> solve s = Sat vals n -> sat s vals.
+Proof. exact solve_sound. Qed.
+Print Assumptions C20_sound.
+
+(** "unsolvable" is only reported when no assignment exists *)
+Theorem C20_complete : forall s n, wf s -> solve s = Unsat n -> ~ solvable s.
+Proof. exact solve_complete. Qed.
+Print Assumptions C20_complete.
+
+(** hence the solver decides satisfiability (Err = outside supported limits / fuel) *)
+Theorem C20_decides : forall s, wf s -> solve s <> Err ->
+  (is_sat (solve s) = Some true <-> solvable s) /\ (is_sat (solve s) = Some false <-> ~ solvable s).
+Proof. exact solve_decides. Qed.
+Print Assumptions C20_decides.
+
+(** arc consistency never removes a solution (and never invents one) *)
+Theorem C20_arc_preserves_solutions : forall s, wf s ->
+  match makeArcConsistent s with
+  | ACOk ds' => length ds' = length (doms s) /\ Forall small ds' /\
+                forall a, Forall (holds a) (constrs s) -> (sol0 (doms s) a <-> sol0 ds' a)
+  | ACFail => forall a, Forall (holds a) (constrs s) -> ~ sol0 (doms s) a
+  | ACErr => True
+  end.
+Proof. exact makeArcConsistent_spec. Qed.
+Print Assumptions C20_arc_preserves_solutions.
+
+(** the verdict is independent of the value-preference order *)
+Theorem C20_pref_irrelevant : forall s s',
+  wf s -> wf s' -> doms s = doms s' -> constrs s = constrs s' ->
+  solve s <> Err -> solve s' <> Err -> is_sat (solve s) = is_sat (solve s').
+Proof. exact pref_irrelevant. Qed.
+Print Assumptions C20_pref_irrelevant.
+
+(** every system built through the public operations is well-formed, and its bit-set domains
+    mean exactly "range, parity, min/max tightenings" *)
+Theorem C20_build_wf : forall ops s, build ops = Some s -> wf s.
+Proof. exact build_wf. Qed.
+Print Assumptions C20_build_wf.
+
+Theorem C20_build_meaning : forall ops s,
+  build ops = Some s ->
+  length (spec_vars ops) = length (doms s) /\
+  forall i, (i < length (doms s))%nat ->
+    forall v, dmem (nth i (doms s) 0%N) v <-> (offs <= v < offs + numBits /\ vmem (nth i (spec_vars ops) dflt) v).
+Proof. exact build_meaning. Qed.
+Print Assumptions C20_build_meaning.
+
+(** partial form of C20_in_bounds: the data-dependent word indices of removeSmaller /
+    removeLarger inside makeArcConsistent are always 0 (the SideErr outcome is unreachable).
+    Not yet proved: that the fuel of [ac_loop] always suffices (full statement below). *)
+Theorem C20_in_bounds_partial : forall cs ds mask c,
+  Forall small ds -> (cv1 c < length ds)%nat -> (cv2 c < length ds)%nat ->
+  ac_side0 cs ds mask c <> SideErr /\ ac_side1 cs ds mask c <> SideErr.
+Proof. exact ac_sides_in_bounds. Qed.
+Print Assumptions C20_in_bounds_partial.
+
+Definition C20_in_bounds_statement : Prop :=
+  forall s, wf s -> (length (constrs s) <= 192)%nat -> solve s <> Err.
